@@ -33,6 +33,31 @@ pub fn make_date_time_with_tz(
     }
 }
 
+/// Constructs a datetime with the timezone from a timestamp as it is written in text:
+/// a wall clock time, an UTC offset of minute precision and the timezone name.
+///
+/// The written offset is the timezone's own offset with the seconds dropped. In the few
+/// periods in which a timezone's offset is not a whole number of minutes (local mean time)
+/// the wall clock time is what the text states exactly, so the instant is taken with the
+/// timezone's full offset.
+pub fn make_date_time_from_text(
+    datetime: &StdDateTime<FixedOffset>,
+    tz: &str,
+) -> Result<DateTimeType, String> {
+    use chrono::Offset;
+
+    let converted = make_date_time_with_tz(datetime, tz)?;
+    let zone_secs = converted.offset().fix().local_minus_utc();
+    let seconds = zone_secs % 60;
+    if seconds != 0 && zone_secs - seconds == datetime.offset().local_minus_utc() {
+        let exact = converted - chrono::Duration::seconds(seconds.into());
+        if exact.offset().fix().local_minus_utc() == zone_secs {
+            return Ok(exact);
+        }
+    }
+    Ok(converted)
+}
+
 pub fn utc_now() -> DateTimeType {
     Utc::now().with_timezone(&UTC)
 }
